@@ -155,7 +155,7 @@ fn opt4() -> Vec<(Option<i64>, Option<i64>, Option<i64>, Option<i64>)> {
 }
 
 /// every command variant on key `a` (second key `b`), every boolean / option field both ways
-fn all_variants(rng: &mut Rng, a: &str, b: &str) -> Vec<Command> {
+fn all_variants(rng: &mut Rng, a: &str, b: &str, with_single: bool) -> Vec<Command> {
     let a = a.to_string();
     let b = b.to_string();
     let bools = [false, true];
@@ -183,7 +183,7 @@ fn all_variants(rng: &mut Rng, a: &str, b: &str) -> Vec<Command> {
     v.push(Command::MGet(vec![a.clone(), b.clone()]));
     v.push(Command::MSet(vec![(a.clone(), payload(rng)), (b.clone(), payload(rng))]));
     v.push(Command::MSetNx(vec![(a.clone(), payload(rng)), (b.clone(), payload(rng))]));
-    v.push(Command::BatchSet(vec![(a.clone(), payload(rng))]));
+    v.push(Command::BatchSet(vec![(a.clone(), payload(rng)), (b.clone(), payload(rng))]));
     v.push(Command::BatchGet(vec![a.clone(), b.clone()]));
     v.push(Command::GetRange(a.clone(), 0, -1));
     v.push(Command::GetRange(a.clone(), -100, -200));
@@ -347,9 +347,42 @@ fn all_variants(rng: &mut Rng, a: &str, b: &str) -> Vec<Command> {
     v.push(Command::AclLog { count: Some(1) });
     v.push(Command::AclLogReset);
     v.push(Command::Unknown("FOO".into()));
-    // not enumerated: MULTI/EXEC/DISCARD/WATCH/UNWATCH (transaction state, C05), EVAL/EVALSHA/SCRIPT
-    // (scripts), AUTH / ACL SETUSER / DELUSER (connection level) — none of them is classified read-only
+    v.push(Command::Unknown("XADD".into()));
+    // transaction / script-cache / connection-level variants: executed too (each on a fresh twin)
+    v.push(Command::Multi);
+    v.push(Command::Exec);
+    v.push(Command::Discard);
+    v.push(Command::Watch(vec![a.clone(), b.clone()]));
+    v.push(Command::Unwatch);
+    v.push(Command::ScriptLoad("return 1".into()));
+    v.push(Command::ScriptExists(vec!["0000000000000000000000000000000000000000".into()]));
+    v.push(Command::ScriptFlush);
+    v.push(Command::Auth { username: None, password: "p".into() });
+    v.push(Command::Auth { username: Some("u".into()), password: "p".into() });
+    v.push(Command::AclSetUser { username: "u".into(), rules: vec!["on".into()] });
+    v.push(Command::AclDelUser { usernames: vec!["u".into()] });
+    v.push(Command::AclCat { category: Some("read".into()) });
+    v.push(Command::AclGenPass { bits: Some(64) });
+    if !with_single {
+        // only the variants that name a second key (every (src, dst) pair is swept for these)
+        v.retain(|c| {
+            matches!(
+                c,
+                Command::Rename(..) | Command::RenameNx(..) | Command::RPopLPush(..) | Command::LMove { .. }
+                    | Command::Sort { store: Some(_), .. } | Command::MSet(_) | Command::MSetNx(_) | Command::MGet(_)
+                    | Command::Del(_) | Command::Exists(_) | Command::BatchSet(_) | Command::BatchGet(_) | Command::Watch(_)
+            )
+        });
+    }
     v
+}
+
+/// one instance of the variants the sweep does not execute (for the coverage table only)
+fn not_executed_samples() -> Vec<Command> {
+    vec![
+        Command::Eval { script: "return 1".into(), keys: vec![], args: vec![] },
+        Command::EvalSha { sha1: "0".into(), keys: vec![], args: vec![] },
+    ]
 }
 
 /// the seed-like fixture: every type with and without a deadline over the common key alphabet
@@ -367,21 +400,27 @@ fn fixture_prefix(variant: u64) -> Vec<Prep> {
         Command::RPush(k("c"), vec![s("x"), s("y")]),     // list with TTL
         px("c", 9000),
     ];
-    match variant % 3 {
+    match variant % 4 {
         0 => {
             cmds.push(Command::HSet(k("kk"), vec![(s("f"), s("1")), (s("g"), s("v"))]));
             cmds.push(z);
             cmds.push(px("é", 7000));
         }
         1 => {
-            cmds.push(Command::SAdd(k("kk"), vec![s("m1"), s("m2")]));
+            cmds.push(Command::SAdd(k("kk"), vec![s("3"), s("10")]));
             cmds.push(px("kk", 3000));
             cmds.push(z);
         }
-        _ => {
+        2 => {
             cmds.push(Command::HSet(k("kk"), vec![(s("f"), s("1"))]));
             cmds.push(px("kk", 2500));
             cmds.push(Command::SAdd(k("é"), vec![s("m1")]));
+            cmds.push(px("é", 7000));
+        }
+        _ => {
+            cmds.push(Command::Persist(k("c")));                       // list without a deadline
+            cmds.push(Command::SAdd(k("kk"), vec![s("m1"), s("m2")])); // set without
+            cmds.push(Command::HSet(k("é"), vec![(s("f"), s("1"))]));
             cmds.push(px("é", 7000));
         }
     }
@@ -406,7 +445,7 @@ fn random_prefix(rng: &mut Rng) -> Vec<Prep> {
     v
 }
 
-fn sweep_state(out: &mut Out, rng: &mut Rng, prefix: &[Prep], keys: &[&str], label: &str) {
+fn sweep_state(out: &mut Out, rng: &mut Rng, prefix: &[Prep], srcs: &[&str], dsts: &[&str], label: &str) {
     let human: Vec<String> = prefix
         .iter()
         .map(|p| format!("t={}{} {:?}", p.t, if p.evict { "" } else { " (clock only)" }, p.cmd))
@@ -416,70 +455,118 @@ fn sweep_state(out: &mut Out, rng: &mut Rng, prefix: &[Prep], keys: &[&str], lab
     let mut probe = build(prefix); // only used to look at key states
     let base = snapshots(&mut twin, &pts);
     out.count(&format!("sweep:states:{}", label));
-    for a in keys {
-        let b = *rng.pick(&KEYS);
-        for cmd in all_variants(rng, a, b) {
-            let ro = cmd.is_read_only();
-            let ks = key_state(&mut probe, &cmd);
-            out.count(&format!("sweep:{}:{}:{}", cmd.name(), if ro { "read-only" } else { "write" }, ks));
-            if !ro {
-                continue; // the property says nothing about commands the implementation calls writes
+    for a in srcs {
+        for (bi, b) in dsts.iter().enumerate() {
+            for cmd in all_variants(rng, a, b, bi == 0) {
+                let (vname, cover) = variant_info(&cmd);
+                let ro = cmd.is_read_only();
+                let ks = key_state(&mut probe, &cmd);
+                out.count(&format!("sweep:{}:{}:{}", cmd.name(), if ro { "read-only" } else { "write" }, ks));
+                out.count(&format!("variant:{}", vname));
+                if matches!(cover, Cover::NotExecuted(_)) {
+                    continue;
+                }
+                let mut se = build(prefix);
+                if se.dump() != base[0] {
+                    out.count("sweep:twin-diverged");
+                    continue;
+                }
+                let replay = |what: &str, at: u64, got: &str, want: &str, reply: &str| {
+                    json!({"prepared_state": human, "command": format!("{:?}", cmd), "entry": what,
+                           "read_only_by_Command::is_read_only()": ro, "reply": reply,
+                           "clock_at_comparison": at, "clock_at_command": pts[0],
+                           "snapshot_with_command": got, "snapshot_without_command": want})
+                };
+                // 1. the &self entry point (only for commands the implementation calls read-only)
+                if ro {
+                    let ex = &se.ex;
+                    let r0 = std::panic::catch_unwind(std::panic::AssertUnwindSafe(|| ex.execute_readonly(&cmd)));
+                    let d0 = se.dump();
+                    if d0 != base[0] {
+                        out.violation(
+                            &format!("C17:readonly-mutates:{}", cmd.name()),
+                            &format!("{:?} is classified read-only but execute_readonly changed the visible keyspace: [{}] -> [{}]", cmd, base[0], d0),
+                            replay("execute_readonly", pts[0], &d0, &base[0], &format!("{:?}", r0.ok().map(|r| reply_text(&r, Order::AsIs)))),
+                        );
+                        continue;
+                    }
+                }
+                // 2. the normal entry point
+                let (reply, is_err) = match se.exec(&cmd) {
+                    Some(r) => (reply_text(&r, reply_order(&cmd)), is_error(&r)),
+                    None => {
+                        out.violation(&format!("C17:crash:{}", cmd.name()), "CommandExecutor::execute panicked",
+                            replay("execute", pts[0], "crash", &base[0], "crash"));
+                        continue;
+                    }
+                };
+                out.count(&format!("sweep-outcome:{}:{}", vname, if is_err { "error" } else if ro { "read-only" } else { "write-ok" }));
+                if !(ro || is_err) {
+                    continue; // a successful write: the property says nothing
+                }
+                // 3. now and around every pre-existing deadline the twins must look the same
+                let got = snapshots(&mut se, &pts);
+                if let Some(i) = (0..pts.len()).find(|i| got[*i] != base[*i]) {
+                    let when = if i == 0 { "immediately".to_string() } else { format!("once the clock reaches t={} (+{} ms)", pts[i], pts[i] - pts[0]) };
+                    let sig = if is_err {
+                        format!("C17:error-mutates:{}:{}", cmd.name(), reply.trim_start_matches('-'))
+                    } else {
+                        format!("C17:readonly-mutates:{}", cmd.name())
+                    };
+                    out.violation(
+                        &sig,
+                        &format!(
+                            "{:?} replied {} ({}) but the visible keyspace differs {}: with the command [{}], without it [{}]",
+                            cmd, reply,
+                            if is_err { "an error" } else { "classified read-only by Command::is_read_only()" },
+                            when, got[i], base[i]
+                        ),
+                        replay("execute", pts[i], &got[i], &base[i], &reply),
+                    );
+                }
+                out.case(&format!("sweep|{}|{:?}|{:?}", label, human, cmd), base[0] != "0");
             }
-            let mut se = build(prefix);
-            if se.dump() != base[0] {
-                out.count("sweep:twin-diverged");
-                continue;
-            }
-            let replay = |what: &str, at: u64, got: &str, want: &str, reply: &str| {
-                json!({"prepared_state": human, "command": format!("{:?}", cmd), "entry": what,
-                       "classified_read_only_by": "Command::is_read_only()", "reply": reply,
-                       "clock_at_comparison": at, "clock_at_command": pts[0],
-                       "snapshot_with_command": got, "snapshot_without_command": want})
-            };
-            // 1. the &self entry point
-            let ex = &se.ex;
-            let r0 = std::panic::catch_unwind(std::panic::AssertUnwindSafe(|| ex.execute_readonly(&cmd)));
-            let d0 = se.dump();
-            if d0 != base[0] {
-                out.violation(
-                    &format!("C17:readonly-mutates:{}", cmd.name()),
-                    &format!("{:?} is classified read-only but execute_readonly changed the visible keyspace: [{}] -> [{}]", cmd, base[0], d0),
-                    replay("execute_readonly", pts[0], &d0, &base[0], &format!("{:?}", r0.ok().map(|r| reply_text(&r, Order::AsIs)))),
-                );
-                continue;
-            }
-            // 2. the normal entry point, then the future
-            let reply = match se.exec(&cmd) {
-                Some(r) => reply_text(&r, reply_order(&cmd)),
-                None => "crash".to_string(),
-            };
-            let got = snapshots(&mut se, &pts);
-            if let Some(i) = (0..pts.len()).find(|i| got[*i] != base[*i]) {
-                let when = if i == 0 { "immediately".to_string() } else { format!("once the clock reaches t={} (+{} ms)", pts[i], pts[i] - pts[0]) };
-                out.violation(
-                    &format!("C17:readonly-mutates:{}", cmd.name()),
-                    &format!(
-                        "{:?} is classified read-only by Command::is_read_only() (reply {}) but the visible keyspace differs {}: with the command [{}], without it [{}]",
-                        cmd, reply, when, got[i], base[i]
-                    ),
-                    replay("execute", pts[i], &got[i], &base[i], &reply),
-                );
-            }
-            out.case(&format!("sweep|{}|{:?}|{:?}", label, human, cmd), base[0] != "0");
         }
     }
 }
 
-fn readonly_sweep(out: &mut Out, rng: &mut Rng, n_states: u64) {
-    for v in 0..3 {
-        sweep_state(out, rng, &fixture_prefix(v), &KEYS, "fixture");
+/// the `Command` variants as the coverage table of `redisx::variant_info` sees them
+const MISSING_KEY: &str = "zz";
+
+fn oracle_sweep(out: &mut Out, rng: &mut Rng, n_states: u64) {
+    // fixtures: every key (and a missing one) as source, every key (and a missing one) as destination
+    let mut all: Vec<&str> = KEYS.to_vec();
+    all.push(MISSING_KEY);
+    for v in 0..4 {
+        sweep_state(out, rng, &fixture_prefix(v), &all, &all, "fixture");
     }
     for _ in 0..n_states {
         let prefix = random_prefix(rng);
         let k1 = *rng.pick(&KEYS);
         let k2 = *rng.pick(&KEYS);
-        sweep_state(out, rng, &prefix, &[k1, k2], "random");
+        let d1 = *rng.pick(&KEYS);
+        sweep_state(out, rng, &prefix, &[k1, k2], &[d1], "random");
     }
+    // coverage table: variant -> class, reason, how often the sweep built it
+    let mut rows: std::collections::BTreeMap<String, serde_json::Value> = std::collections::BTreeMap::new();
+    let mut samples = all_variants(rng, "a", "b", true);
+    samples.extend(not_executed_samples());
+    for c in &samples {
+        let (name, cover) = variant_info(c);
+        let (class, reason) = match cover {
+            Cover::Modelled => ("modelled (M7 + generators + oracles)", ""),
+            Cover::OracleOnly(r) => ("oracle-only (C17 snapshot oracles, no model)", r),
+            Cover::NotExecuted(r) => ("not executed", r),
+        };
+        let n = out.dist.get(&format!("variant:{}", name)).copied().unwrap_or(0);
+        if n == 0 && !matches!(cover, Cover::NotExecuted(_)) {
+            eprintln!("coverage table: variant {} is classified as executed but the sweep built no instance of it", name);
+            std::process::exit(3);
+        }
+        rows.insert(name.to_string(), json!({"class": class, "reason": reason, "instances_swept": n}));
+    }
+    out.extra.insert("command_variant_table".into(), json!(rows));
+    out.extra.insert("command_variants_total".into(), json!(rows.len()));
 }
 
 pub fn corpus(out: &mut Out) {
@@ -501,6 +588,14 @@ pub fn corpus(out: &mut Out) {
         }),
         sc(0, true, Command::GetEx { key: k("s"), ex: None, px: None, exat: None, pxat: None, persist: true }),
     ]);
+    // round-3 seed C17-sort-store-clears-ttl-before-type-check: dst list with a TTL, src hash
+    run_scripted(out, "C17", "sort-store-wrongtype-src", vec![
+        sc(0, true, Command::RPush(k("dst"), vec![s("1"), s("2")])),
+        sc(0, true, Command::PExpire { key: k("dst"), milliseconds: 9000, nx: false, xx: false, gt: false, lt: false }),
+        sc(0, true, Command::HSet(k("src"), vec![(s("f"), s("v"))])),
+        sc(0, true, Command::Sort { key: k("src"), store: Some(k("dst")) }),
+        sc(0, true, Command::Pttl(k("dst"))),
+    ]);
     run_scripted(out, "C17", "lmove-dst-wrongtype", vec![
         sc(0, true, Command::RPush(k("src"), vec![s("a"), s("b")])),
         sc(0, true, Command::set(k("dst"), s("s"))),
@@ -515,12 +610,12 @@ pub fn run(a: &Args) {
     for _ in 0..a.n {
         run_random_sequence(&mut out, &mut rng, "C17", &gen);
     }
-    let n_states = (a.n / 25).clamp(20, 2000);
-    readonly_sweep(&mut out, &mut rng, n_states);
+    let n_states = (a.n / 50).clamp(20, 1000);
+    oracle_sweep(&mut out, &mut rng, n_states);
     // per-command × classification × key-state table of the sweep, for the evidence
     let table: std::collections::BTreeMap<String, u64> =
         out.dist.iter().filter(|(k, _)| k.starts_with("sweep:")).map(|(k, v)| (k.clone(), *v)).collect();
     out.extra.insert("readonly_sweep_distribution".into(), serde_json::json!(table));
     out.extra.insert("families_covered".into(), serde_json::json!(crate::c01::FAMILIES));
-    out.finish("case = one sequence of 1..60 commands biased towards failing commands (wrong-type operands in mixed-type states, overflowing integers, out-of-range indices, invalid expire times, two-key commands) on a fresh real CommandExecutor; oracle after every command: reply is an error or Command::is_read_only() ⇒ visible keyspace (keys, types, values, PTTLs) unchanged; distinct by op text; non-trivial iff some command changed the keyspace and some reply was informative. PLUS the read-only classification sweep: for prepared states (3 fixtures with every type with/without a deadline, and random prefixes) EVERY command variant (every constructor, every boolean/option field both ways) is classified by the implementation's own Command::is_read_only(); each one it calls read-only is run on a twin executor (execute_readonly, then execute) and the twins' full snapshots are compared now and at one ms before / at / after every pre-existing deadline; a sweep case is non-trivial iff the prepared keyspace is non-empty");
+    out.finish("case = one sequence of 1..60 commands biased towards failing commands (wrong-type operands in mixed-type states, overflowing integers, out-of-range indices, invalid expire times, two-key commands) on a fresh real CommandExecutor; oracle after every command: reply is an error or Command::is_read_only() ⇒ visible keyspace (keys, types, values, PTTLs) unchanged; distinct by op text; non-trivial iff some command changed the keyspace and some reply was informative. PLUS the oracle sweep: for prepared states (4 fixtures with every type with AND without a deadline — every key and a missing key as source and as destination — and random prefixes) EVERY variant of the Command enum (exhaustive-match table; every boolean/option field both ways; modelled or not) except EVAL/EVALSHA is run on a twin executor; whenever the reply is an error or the implementation's own Command::is_read_only() says read-only (then also through execute_readonly) the twins' full snapshots are compared now and at one ms before / at / after every pre-existing deadline; a sweep case is non-trivial iff the prepared keyspace is non-empty");
 }
